@@ -1554,7 +1554,10 @@ def real_files(ctx):
         # `io.BufferedRandom`, `io.TextIOWrapper` over either), default and explicit buffer sizes
         case = {"kind": "realfile", "msgs": msgs, "ext": ext,
                 "modes": [rng.choice(["ab", "a+b", "w+b", "wb", "ab", "xb", "x+b"]), rng.choice(["a", "a+", "w", "w+", "a", "x"])],
-                "buffering": None if rng.random() < 0.6 else rng.choice([16, 4096, 1 << 20])}
+                "buffering": None if rng.random() < 0.6 else rng.choice([16, 4096, 1 << 20]),
+                # ... and text streams reconfigured by the application (`write_through` hands every write to the binary layer
+                # at once - which still buffers; `line_buffering` flushes at line breaks)
+                "text_opts": rng.choice([None, None, "write_through", "line_buffering"])}
         ctx.case(case, nontrivial=True, tags=["real-file-group", "real-file-mode:" + case["modes"][0], "real-file-mode:" + case["modes"][1]], sample=False)
         real_file_case(ctx, case)
 
@@ -1567,6 +1570,8 @@ def real_file_case(ctx, case):
     with tempfile.TemporaryDirectory(prefix="c10-") as d:
         fb = open(os.path.join(d, "b.log"), bmode, **({"buffering": case["buffering"]} if case.get("buffering") else {}))
         ft = open(os.path.join(d, "t.log"), tmode, encoding="utf-8", newline="")
+        if case.get("text_opts"):
+            ft.reconfigure(**{case["text_opts"]: True})
         bio, sio = io.BytesIO(), io.StringIO()
         seen, seen_t = [], []
         try:
@@ -1637,7 +1642,7 @@ def replay(ctx, obj):
         case = {"kind": "file", "msgs": msgs, "ext": ext}
         kind = "file"
     if kind in ("file", "realfile", "fanout"):
-        base = {k: v for k, v in case.items() if k not in ("only", "mode", "dest", "modes", "buffering", "flush")}
+        base = {k: v for k, v in case.items() if k not in ("only", "mode", "dest", "modes", "buffering", "flush", "text_opts")}
         if kind == "realfile":
             base["kind"] = "file"
             if case.get("flush"):
